@@ -220,6 +220,7 @@ func runMain(args []string) {
 	if t := os.Getenv("VERIF_TIER"); t != "" && *tier == "" {
 		*tier = t
 	}
+	thoroughTier = *tier == "thorough"
 	plan := planFor(*prop)
 	if plan == nil {
 		fmt.Fprintf(os.Stderr, "no check for property %q\n", *prop)
@@ -546,6 +547,46 @@ func minimise(bin string, mode *Mode, sc *Scenario, v Violation, budget time.Dur
 			n *= 2
 			if n > len(cur.Steps) {
 				n = len(cur.Steps)
+			}
+		}
+	}
+	// concurrent batches: drop members (remapping the recorded decisions), then
+	// shorten the decision list (when it runs out the current process keeps
+	// running, else the lowest-numbered one: fewer recorded choices = fewer
+	// preemptions)
+	for i := range cur.Steps {
+		if cur.Steps[i].Batch == nil {
+			continue
+		}
+		for m := len(cur.Steps[i].Batch.Cmds) - 1; m >= 0 && len(cur.Steps[i].Batch.Cmds) > 1; m-- {
+			c := cur.Clone()
+			b := c.Steps[i].Batch
+			b.Cmds = append(append([]Cmd{}, b.Cmds[:m]...), b.Cmds[m+1:]...)
+			var dec []int
+			for _, x := range b.Decisions {
+				if x == m {
+					continue
+				}
+				if x > m {
+					x--
+				}
+				dec = append(dec, x)
+			}
+			b.Decisions = dec
+			if try(c) {
+				cur = c
+			}
+		}
+		lo, hi := 0, len(cur.Steps[i].Batch.Decisions)
+		for lo < hi && time.Now().Before(deadline) {
+			mid := (lo + hi) / 2
+			c := cur.Clone()
+			c.Steps[i].Batch.Decisions = c.Steps[i].Batch.Decisions[:mid]
+			if try(c) {
+				hi = mid
+				cur = c
+			} else {
+				lo = mid + 1
 			}
 		}
 	}
